@@ -5,7 +5,7 @@ from vlib.coqlit import *
 ID = "C14"
 COQ_PROPS = ["Props/C14.v", "Props/C14conv.v"]
 THEOREMS = ["C14_filter_sem", "C14_filter_sem_noincl", "C14_compose", "C14_default", "C14_default_lists_plain",
-            "C14_position_orientation_kept", "C14_named_categories_excluded",
+            "C14_position_orientation_kept", "C14_named_categories_excluded", "C14_default_no_weaker_than_baseline",
             "C14_filter_meta_exact", "C14_keys", "C14_default_privacy"]
 ALLOWED_AXIOMS = []
 TABLES = ["t_filter", "t_classes", "t_ext_tol", "t_stack"]
@@ -51,7 +51,7 @@ class Filt:
         if r < 0.85:
             return ''.join(rng.choice('abcdefPatientDateUIDxyz_.0123 éß中') for _ in range(rng.randrange(0, 14)))
         return rng.choice(['ImagePositionPatient', 'ImageOrientationPatient', 'CsaImage.ImagePositionPatient', 'PatientImagePositionPatient', 'PatientID',
-                           'StudyDate', 'EchoTime', 'SOPInstanceUID', 'ImageOrientationPatientX', 'Age', 'Image', ''])
+                           'StudyDate', 'EchoTime', 'SOPInstanceUID', 'EthnicGroup', 'Occupation', 'MilitaryRank', 'CountryOfResidence', 'InsurancePlanIdentification', 'PatientReligiousPreference', 'ResponsiblePersonTelephone', 'OperatorsName', 'StationName', 'DeviceSerialNumber', 'MedicalRecordLocator', 'ImageOrientationPatientX', 'Age', 'Image', ''])
 
     @staticmethod
     def gen_cases(rng, tier):
@@ -113,12 +113,12 @@ class Filt:
             # patient / physician / date / UID / institution keys are excluded, image position and orientation always kept
             excl, incl = obs['def_excl'], obs['def_incl']
             want = any(re.search(e, key) for e in excl) and not any(re.search(i, key) for i in incl)
-            named = ['Patient', 'Physician', 'Date', 'UID', 'Institution']
+            named = ['Patient', 'Physician', 'Operator', 'Date', 'Birth', 'Address', 'Institution', 'Station', 'SiteName', 'Age', 'Comment', 'Phone', 'Telephone', 'Insurance', 'Religious', 'Language', 'Military', 'MedicalRecord', 'Ethnic', 'Occupation', 'Unknown', 'PrivateTagData', 'UID', 'StudyDescription', 'DeviceSerialNumber', 'ReferencedImageSequence', 'RequestedProcedureDescription', 'PerformedProcedureStepDescription', 'PerformedProcedureStepID']   # the default exclude literals shipped at the pinned commit
             if 'ImagePositionPatient' in key or 'ImageOrientationPatient' in key:
                 if obs['filtered']:
                     return 'key %r (image position/orientation) is filtered out by the default filter' % key
             elif any(n in key for n in named) and not any(re.search(i, key) for i in incl) and not obs['filtered']:
-                return 'key %r names patient/physician/date/UID/institution data but survives the default filter' % key
+                return 'key %r contains one of the shipped default exclude literals but survives the default filter' % key
         else:
             if not obs['excl']:
                 return None
